@@ -51,17 +51,58 @@ fn expected_variant(name: &str, kind: InformationContentKind) -> Option<Builtins
     })
 }
 
-/// the concrete struct behind a `Builtins` variant
-fn concrete(b: &Builtins, x: &HpoTerm, y: &HpoTerm) -> f32 {
+/// One long-lived object per algorithm and kind, used for every `sim` op of a case (also across
+/// the ontologies of the case): a similarity object carries no state from one call to the next.
+pub struct SimObjs {
+    pub dist: Distance,
+    graphic: [GraphIc; 3],
+    ic: [InformationCoefficient; 3],
+    jc: [Jc; 3],
+    lin: [Lin; 3],
+    mutation: [Mutation; 3],
+    relevance: [Relevance; 3],
+    resnik: [Resnik; 3],
+}
+
+const IC_KINDS: [InformationContentKind; 3] =
+    [InformationContentKind::Gene, InformationContentKind::Omim, InformationContentKind::Orpha];
+
+impl Default for SimObjs {
+    fn default() -> Self {
+        SimObjs {
+            dist: Distance::new(),
+            graphic: IC_KINDS.map(GraphIc::new),
+            ic: IC_KINDS.map(InformationCoefficient::new),
+            jc: IC_KINDS.map(Jc::new),
+            lin: IC_KINDS.map(Lin::new),
+            mutation: IC_KINDS.map(Mutation::new),
+            relevance: IC_KINDS.map(Relevance::new),
+            resnik: IC_KINDS.map(Resnik::new),
+        }
+    }
+}
+
+fn kidx(k: &InformationContentKind) -> usize {
+    match k {
+        InformationContentKind::Gene => 0,
+        InformationContentKind::Omim => 1,
+        InformationContentKind::Orpha => 2,
+    }
+}
+
+/// the concrete struct behind a `Builtins` variant: the case's long-lived object AND a fresh one
+fn concrete(objs: &SimObjs, b: &Builtins, x: &HpoTerm, y: &HpoTerm) -> (f32, f32) {
     match b {
-        Builtins::Distance(_) => Distance::new().calculate(x, y),
-        Builtins::GraphIc(k) => GraphIc::new(*k).calculate(x, y),
-        Builtins::InformationCoefficient(k) => InformationCoefficient::new(*k).calculate(x, y),
-        Builtins::Jc(k) => Jc::new(*k).calculate(x, y),
-        Builtins::Lin(k) => Lin::new(*k).calculate(x, y),
-        Builtins::Mutation(k) => Mutation::new(*k).calculate(x, y),
-        Builtins::Relevance(k) => Relevance::new(*k).calculate(x, y),
-        Builtins::Resnik(k) => Resnik::new(*k).calculate(x, y),
+        Builtins::Distance(_) => (objs.dist.calculate(x, y), Distance::new().calculate(x, y)),
+        Builtins::GraphIc(k) => (objs.graphic[kidx(k)].calculate(x, y), GraphIc::new(*k).calculate(x, y)),
+        Builtins::InformationCoefficient(k) => {
+            (objs.ic[kidx(k)].calculate(x, y), InformationCoefficient::new(*k).calculate(x, y))
+        }
+        Builtins::Jc(k) => (objs.jc[kidx(k)].calculate(x, y), Jc::new(*k).calculate(x, y)),
+        Builtins::Lin(k) => (objs.lin[kidx(k)].calculate(x, y), Lin::new(*k).calculate(x, y)),
+        Builtins::Mutation(k) => (objs.mutation[kidx(k)].calculate(x, y), Mutation::new(*k).calculate(x, y)),
+        Builtins::Relevance(k) => (objs.relevance[kidx(k)].calculate(x, y), Relevance::new(*k).calculate(x, y)),
+        Builtins::Resnik(k) => (objs.resnik[kidx(k)].calculate(x, y), Resnik::new(*k).calculate(x, y)),
     }
 }
 
@@ -121,9 +162,11 @@ pub fn exec(it: &mut Interp, toks: &[&str], out: &mut Vec<String>) -> bool {
                     line.push_str(&f32bits(s));
                     // dispatch: all routes to the same algorithm agree bit for bit
                     let s2 = ta.similarity_score(&tb, &bi);
-                    let s3 = concrete(&bi, &ta, &tb);
-                    if s2.to_bits() != s.to_bits() || s3.to_bits() != s.to_bits() {
-                        fails.push(format!("dispatch {a},{b}: builtins {s} similarity_score {s2} struct {s3}"));
+                    let (s3, s4) = concrete(&it.sims, &bi, &ta, &tb);
+                    if s2.to_bits() != s.to_bits() || s3.to_bits() != s.to_bits() || s4.to_bits() != s.to_bits() {
+                        fails.push(format!(
+                            "dispatch {a},{b}: builtins {s} similarity_score {s2} long-lived struct {s3} fresh struct {s4}"
+                        ));
                     }
                     if !s.is_finite() {
                         fails.push(format!("not finite {a},{b}: {s}"));
